@@ -14,7 +14,7 @@ CLAIMED = {
 CLAIMED.update({
  'C07': dict(
    technique='Lean 4 proof: arithmetic of the 64-bit padding formula (BitVec link + minimality), power-of-two units and block alignment by mutual structural induction; correspondence on real schema rows',
-   text='Kernel-checked: pad_is_bit_formula (the model formula is the crate\'s wrapping_neg & (u-1) on 64-bit words), pad_spec (for every offset and power-of-two unit: aligned, smaller than the unit, minimal), unit_pow2 / unit_ge_field (units are powers of two, >= native alignment and field units), blocks_aligned (every zero-copy block of every serialized value starts at a multiple of its unit), zero_block_shape_* (exactly pad zero bytes precede the data), count_exact_full. The implementation is compared with the model on layouts (size_of/align_of/max_size_of), on the schema rows recorded by the real serialize_with_schema (block offsets, padding rows) and on byte counts.',
+   text='Kernel-checked: pad_is_bit_formula (the model formula is the crate\'s wrapping_neg & (u-1) on 64-bit words), pad_spec (for every offset and power-of-two unit: aligned, smaller than the unit, minimal), unit_pow2 / unit_ge_field (units are powers of two, >= native alignment and field units), blocks_aligned (every zero-copy block of every serialized value starts at a multiple of its unit), zero_block_shape_* (exactly pad zero bytes precede the data), count_exact_full, count_exact_eps. The implementation is compared with the model on layouts (size_of/align_of/max_size_of), on the schema rows recorded by the real serialize_with_schema (block offsets, padding rows) and on byte counts.',
    note='unit theorems exclude ranges over index types whose size is not a power of two (Ty.wf): there the property is false of the code (known finding KF-C07-1, witness RangeTo<[u8; 3]>, unit 3, replayed on every run); rustc layout is modelled and validated per run.',
    design='5/C07'),
  'C10': dict(
